@@ -12,6 +12,9 @@ ASSUMPTIONS = ['the NumPy dispatch glue (__array_function__, method wrappers) is
 
 def clog2(n): return int(math.ceil(math.log2(n))) if n > 1 else 0
 
+def lo_code(s, nw): return S.fmt_bounds(s, nw)[0]
+def hi_code(s, nw): return S.fmt_bounds(s, nw)[1]
+
 def np_diag_idx(shape, off):
     """(row, column) positions of the diagonal with the given offset of a 2-D array"""
     return [(i, i + off) for i in range(shape[0]) if 0 <= i + off < shape[1]]
@@ -27,6 +30,7 @@ def gen(rng):
     else: codes = [rng.choice([lo, hi, 0, 1, rng.randint(lo, hi), rng.randint(lo, hi)]) for _ in range(n)]
     op = rng.choice(['sum', 'sum', 'cumsum', 'prod', 'cumprod', 'dot', 'dot', 'trace', 'max', 'min', 'sort', 'clip', 'transpose', 'diagonal', 'matmul'])
     axis = rng.choice([None] + list(range(len(shape)))) if op in ('sum', 'cumsum', 'prod', 'cumprod', 'max', 'min', 'sort') else None
+    if op in ('sum', 'prod', 'max', 'min') and len(shape) == 2 and rng.random() < 0.2: axis = (0, 1)      # (a tuple of axes is a valid axis)
     if op == 'sort' and axis is None: axis = -1
     c = {'f': [s, nw, nf], 'shape': list(shape), 'codes': codes, 'op': op, 'axis': axis, 'route': rng.choice(['numpy', 'method'])}
     if op in ('dot', 'matmul'):
@@ -42,8 +46,11 @@ def gen(rng):
         if len(np_diag_idx(shape, off)) > 0: c['offset'] = off
     # the property's domain: result word <= 53 bits
     if op == 'cumprod' and n * max(nw, abs(nf) + nw) > 53: return gen(rng)
-    if op == 'prod' and (n if axis is None else shape[axis]) * nw > 53: return gen(rng)
-    if op == 'clip': c['clip'] = [rng.randint(lo, 0) , rng.randint(0, hi)]
+    if op == 'prod' and (n if (axis is None or isinstance(axis, tuple)) else shape[axis]) * nw > 53: return gen(rng)
+    if op == 'clip':
+        c['clip'] = [rng.randint(lo, 0) , rng.randint(0, hi)]
+        # how the bounds are given: Python floats, one side only, NumPy integers of a narrow type (integral bounds), fixed-point objects
+        c['clip_kind'] = rng.choice(['float', 'float', 'lower_only', 'upper_only', 'npint', 'fxp', 'kw'])
     if op == 'transpose' and rng.random() < 0.6:
         perm = list(range(len(shape))); rng.shuffle(perm); c['axes'] = perm
     return c
@@ -53,6 +60,7 @@ def run_cases(cases, res):
     pend = []; reqs = []
     for c in cases:
         s, nw, nf = c['f']; shape = tuple(c['shape']); op = c['op']; axis = c['axis']
+        if isinstance(axis, list): axis = tuple(axis)       # (a replayed case: JSON has no tuples)
         try:
             x = A.mk(fx, np, s, nw, nf, c['codes'], shape=shape)
             arr = np.array(c['codes'], dtype=object).reshape(shape)
@@ -64,7 +72,7 @@ def run_cases(cases, res):
             elif op == 'cumsum':
                 z = x.cumsum(axis=axis) if meth else np.cumsum(x, axis=axis); exact = np.cumsum(arr, axis=axis) * lsb; want_fmt = (s, clog2(x.size) + nw, nf)
             elif op == 'prod':
-                k = x.size if axis is None else shape[axis]
+                k = x.size if (axis is None or isinstance(axis, tuple)) else shape[axis]
                 z = x.prod(axis=axis) if meth else np.prod(x, axis=axis); exact = np.prod(arr, axis=axis) * lsb ** k; want_fmt = (s, k * nw, k * nf)
             elif op == 'cumprod':
                 z = x.cumprod(axis=axis) if meth else np.cumprod(x, axis=axis)
@@ -92,7 +100,18 @@ def run_cases(cases, res):
             elif op == 'sort':
                 z = np.sort(x, axis=axis); exact = np.sort(arr.astype(np.int64), axis=axis).astype(object) * lsb; want_fmt = (s, nw, nf)
             elif op == 'clip':
-                a, b = c['clip']; z = x.clip(float(a * lsb), float(b * lsb)) if meth else np.clip(x, float(a * lsb), float(b * lsb))
+                a, b = c['clip']; kind = c.get('clip_kind', 'float')
+                if kind == 'npint' and nf >= 0:      # integral bounds a NumPy int8 / int16 can hold, given in that type
+                    a = (a >> nf) << nf; b = (b >> nf) << nf
+                    if not (-128 <= a >> nf and b >> nf <= 127): kind = 'float'
+                if kind == 'npint' and nf < 0: kind = 'float'
+                ba, bb = float(a * lsb), float(b * lsb)
+                if kind == 'npint': ba, bb = np.int8(a >> nf), np.int8(b >> nf)
+                elif kind == 'fxp': ba, bb = A.mk(fx, np, s, nw, nf, a), A.mk(fx, np, s, nw, nf, b)
+                if kind == 'lower_only': z = x.clip(ba, None) if meth else np.clip(x, ba, None); b = hi_code(s, nw)
+                elif kind == 'upper_only': z = x.clip(None, bb) if meth else np.clip(x, None, bb); a = lo_code(s, nw)
+                elif kind == 'kw': z = x.clip(a_min=ba, a_max=bb) if meth else np.clip(x, min=ba, max=bb)
+                else: z = x.clip(ba, bb) if meth else np.clip(x, ba, bb)
                 exact = np.clip(arr.astype(np.int64), a, b).astype(object) * lsb; want_fmt = (s, nw, nf)
             elif op == 'transpose':
                 ax = c.get('axes')      # None, or an explicit permutation of the axes
